@@ -138,7 +138,7 @@ CLAIMED = {
                      "(BehaviorSubject) while pushes are in progress receives every item of the history exactly once in push order (one value and then exactly the later ones). Partial: terminals are not part of these two models (C19 covers terminals "
                      "racing items), the unsubscribing observer of Replay/Behavior is judged by the oracle only. Tie: 1-2 producer threads, a subscriber present throughout, a subscribing and an unsubscribing thread on the real Subject / "
                      "BehaviorSubject / ReplaySubject under DFS, random and PCT schedules; every subscriber log is judged against the producers' scripts and call/return order; DFS log sets must lie within the extracted models' log sets. "
-                     "C12_close_never_loses_a_subscriber (Model/ConcClose.v): Subject::error / complete racing a subscriber - with the observers taken out in one critical section a subscriber registered by the time the closer is done has been handed the terminal XOR is still registered, under every interleaving, and (C12_close_then_push_terminal_xor_item) an item pushed afterwards reaches it exactly when it was not handed the terminal; the pinned two-section code loses it (C12_known_D23_witness). Tie: a thread closing a plain Subject while another subscribes, then one more push: the newcomer received the terminal or that push on every schedule. C12_replay_close_hands_over_the_terminal_once (Model/ConcReplayClose.v): ReplaySubject::complete / error racing a subscriber - stored terminal, one-section drain, forwarder + replay gate: the newcomer is handed the terminal exactly once, by the replay or live, under every interleaving; tied by the race-c / race-e cases (a thread closes a Replay/BehaviorSubject while another subscribes). "
+                     "C12_close_never_loses_a_subscriber (Model/ConcClose.v): Subject::error / complete racing a subscriber - with the observers taken out in one critical section a subscriber registered by the time the closer is done has been handed the terminal XOR is still registered, under every interleaving, and (C12_close_then_push_terminal_xor_item) an item pushed afterwards reaches it exactly when it was not handed the terminal; the pinned two-section code loses it (C12_known_D23_witness). Tie: a thread closing a plain Subject while another subscribes, then one more push: the newcomer received the terminal or that push on every schedule. C12_replay_close_hands_over_the_terminal_once (Model/ConcReplayClose.v): ReplaySubject::complete / error racing a subscriber - stored terminal, one-section drain, forwarder + replay gate: the newcomer is handed the terminal exactly once, by the replay or live, under every interleaving; tied by the race-c / race-e cases (a thread closes a Replay/BehaviorSubject while another subscribes). C12_behavior_close_hands_over_the_terminal_once (Model/ConcBehaviorClose.v): the same for BehaviorSubject, whose subscriber keeps the guards on the stored value / error from its check until it has registered (one section); with the guard released in between the newcomer is lost (C12_behavior_unguarded_witness). "
                      "Three genuine defects found and repaired (D15a, D15b, D23)."),
     "C19": dict(engine="coq-conc", design="DESIGN.md 6 C19",
                 technique="machine-checked proof in Coq (invariant of a transition system at critical-section granularity, for any number of threads, any call lists, any interleaving) + correspondence under a deterministic scheduling runtime (exhaustive DFS / random / PCT schedules; implementation log set within the model's explored log set)",
